@@ -17,6 +17,7 @@ tools/props/c05.py.
 -/
 import Osmium.Lemmas.PipelineOrder
 import Osmium.Lemmas.PipelineComplete
+import Osmium.Lemmas.PipelineDirect4
 
 namespace Osmium.C05
 
@@ -262,5 +263,31 @@ example : tiny.WF :=
   { nothing_sel := by simp [tiny], chunk_mono := by simp [tiny], chunk_le := by simp [tiny], chunk_last := by simp [tiny],
     blob_mono := by simp [tiny], blob_le := by simp [tiny], blob_last := by simp [tiny], chunk_blob := by simp [tiny],
     workers_ne := by simp [tiny], workers_fresh := by simp [tiny] }
+
+/-! ## the direct-fd configuration (a PBF FILE read by the parser thread through the file descriptor)
+
+`Direct.machineD c` (Lemmas/PipelineDirect.lean; see Props/C07.lean): the same step function, started
+with the whole file available to the parser; by the simulation `Direct.sim` its reachable states agree
+with reachable states of the queue-fed machine `P (Direct.fed c)` on everything the theorems above talk
+about. -/
+
+/-- `delivered_is_prefix` for the direct-fd configuration -/
+theorem direct_delivered_is_prefix (c : Cfg α) (hd : Direct.IsDirect c) (hb : c.blobFault = none)
+    (sd : State α) (h : (Direct.machineD c).Reachable sd) :
+    (sd.delivered ++ sd.back.flatten) <+: deliver c := by
+  obtain ⟨_, s, hr, hs⟩ := Direct.sim c hd sd h
+  have := delivered_is_prefix (Direct.fed c) hb s hr
+  rw [hs.delivered, hs.back, Direct.deliver_fed] at this
+  exact this
+
+/-- `exactly_once_in_order` for the direct-fd configuration: a complete read of a PBF file that the
+    parser thread reads through the fd delivered exactly `deliver c`, in order, nothing left over -/
+theorem direct_exactly_once_in_order (c : Cfg α) (hd : Direct.IsDirect c) (wf : (Direct.fed c).WF)
+    (hb : c.blobFault = none) (sd : State α) (h : (Direct.machineD c).Reachable sd) (hc : completed sd) :
+    sd.delivered = deliver c ∧ sd.back = [] := by
+  obtain ⟨_, s, hr, hs⟩ := Direct.sim c hd sd h
+  have := exactly_once_in_order (Direct.fed c) wf hb s hr (by unfold completed; rw [hs.sawEod]; exact hc)
+  rw [hs.delivered, hs.back, Direct.deliver_fed] at this
+  exact this
 
 end Osmium.C05
